@@ -52,11 +52,11 @@ def classify(rec):
 class Rig:
     """Fake port + board + recording wrappers on the real primitives."""
 
-    def __init__(self, version="2.8.1", eol="\r\n", timeout=1.0):
+    def __init__(self, version="2.8.1", eol="\r\n", timeout=1.0, nickname=""):
         from plotink import ebb_serial
         self.mod = ebb_serial
         self.log = serialsim.EventLog()
-        self.board = serialsim.Legacy2xBoard(version=version, eol=eol)
+        self.board = serialsim.Legacy2xBoard(version=version, eol=eol, nickname=nickname)
         self.plan = serialsim.FaultPlan()
         self.port = serialsim.FakePort(self.board, self.log, self.plan)
         self.port.timeout = timeout             # how the caller happened to open the port
@@ -216,7 +216,8 @@ def bad_fault(rng, n_reads_hint):
 def run_calls(ctx, classes, scen):
     """scen: {"eol", "version", "calls": [{"p": primitive|helper, "text"/"args", "faults", "conforming"}]}"""
     findings = []
-    with Rig(version=scen.get("version", "2.8.1"), eol=scen.get("eol", "\r\n"), timeout=scen.get("timeout", 1.0)) as rig:
+    with Rig(version=scen.get("version", "2.8.1"), eol=scen.get("eol", "\r\n"), timeout=scen.get("timeout", 1.0),
+             nickname=scen.get("nickname", "")) as rig:
         from plotink import ebb_motion, ebb_serial
         for i, call in enumerate(scen["calls"]):
             rig.frames = []
@@ -333,6 +334,14 @@ def history(ctx, rng, with_faults):
         calls.append(call)
     scen = {"eol": rng.choice(["\r\n", "\r\n", "\n", "\n\r"]), "calls": calls,
             "timeout": rng.choice([1.0, 1.0, None, 0, 0.05, 2.0, 5, 30.0, 120])}
+    if rng.random() < 0.3:
+        # a board whose user-set name is itself a request name: the data line of QT then reads exactly like
+        # the request (or like another request, an OK, an error header) - data is data
+        scen["nickname"] = rng.choice(["QT", "qt", "OK", "QP", "V", "Err", "!8", "QT,1"])
+        calls.insert(rng.randrange(len(calls) + 1), {"p": "query", "text": rng.choice(["QT\r", "qt\r", "QT \r"]),
+                                                      "classes": ["request:OK-terminated query",
+                                                                  "data line that reads like a request / reply keyword"],
+                                                      "faults": [], "conforming": True})
     ctx.sample({"eol": scen["eol"], "calls": [{k: v for k, v in c.items() if k != "classes"} for c in calls[:3]]},
                tag="history with faults" if with_faults else "delayed conforming history", per_tag=1)
     run_calls(ctx, ["history with faults" if with_faults else "delayed conforming history",
@@ -419,6 +428,7 @@ def run(ctx):
                 "fault:101+ empty reads", "fault:error line", "fault:goes silent mid-reply", "fault:one empty read first"):
         ctx.need(cls, 40)
     ctx.need("systematic", 300)
+    ctx.need("data line that reads like a request / reply keyword", 200)
     ctx.need("history: after calls to other library functions", 50)
     ctx.need("monitor:primitive invocations checked", 10000)
     ctx.need("monitor:conforming query results attributed", 2000)
